@@ -19,7 +19,7 @@ algorithm class; `Cfg.alg` selects the family:
 
 The *environment* `Env` of a round holds everything the step does not decide itself: the oracle
 answers of the geometry predicates as relations over design indices (`Steps.Rel`), Auer's centres
-and width rows, the acquisition picks (design, objective index) in the order the optimiser returned
+and per-design width rows, the acquisition picks (design, objective index) in the order the optimiser returned
 them, VOGP_AD's refinement test and DecoupledGP's new Pareto set.
 
 **Batch selection.**  The model is total: from the picks offered by the environment it keeps those
@@ -95,8 +95,8 @@ structure Env where
   pessDom : Rel
   /-- Auer: centre of the displayed region of a design -/
   centre : Nat → Vec
-  /-- Auer: rows of `beta_t` (aligned with the iteration order of `S` at modelling time) -/
-  rows : List Vec
+  /-- Auer: `beta_t[design]`, the width row of a design (looked up by design) -/
+  width : Nat → Vec
   /-- acquisition picks (design, objective index) in the optimiser's order -/
   picks : List (Nat × Nat)
   /-- VOGP_AD: `scale·‖σ‖ ≤ ‖V_h‖` for the picked node -/
@@ -201,11 +201,11 @@ def pavebaActive (c : Cfg) (s : State) (e : Env) : Act :=
       | .paveba => false
       | _ => exceeds c A }
 
-/-- Auer: evaluating over `S`, then discarding and Pareto updating with `beta_t` read by position
-(`S` is kept in ascending order, which is the iteration order of a Python set of small ints) -/
+/-- Auer: evaluating over `S`, then discarding and Pareto updating with `beta_t` looked up by
+design -/
 def auerActive (c : Cfg) (s : State) (e : Env) : Act :=
   let req := allOf s.S
-  let r := auerRoundPos c.eps e.centre e.rows s.S s.P
+  let r := auerRound c.eps e.centre e.width s.S s.P
   { st := account c { s with S := r.1, P := r.2 } req
     req := req }
 
@@ -383,7 +383,8 @@ def adSetsOk (c : Cfg) (s s' : State) (o : Out) : Bool :=
       s.P.all (fun p => s'.P.contains p || p == d) &&
       s'.P.all (fun p => s.P.contains p || s.S.contains p || kids.contains p) &&
       (kids.all (fun k => s'.S.contains k) || kids.all (fun k => s'.P.contains k)) &&
-      (!s.P.contains d || kids.all (fun k => s'.P.contains k))
+      (!s.P.contains d || kids.all (fun k => s'.P.contains k)) &&
+      (!s.S.contains d || s.latch || kids.all (fun k => s'.S.contains k))
 
 /-- relation (R) for one `run_one_step()` call -/
 def specOk (c : Cfg) (s s' : State) (o : Out) : Bool :=
